@@ -16,6 +16,18 @@ for d in sorted(glob.glob(f"{ROOT}/seeded/*/meta.json")):
             rule=r["rules"][0].split(" class=")[0].replace("rule=","")
             break
     rows.append(f"| {m['id']} | {m['breaks_property']} | {notes} | {needs} | {caught} | {rule} |")
+# run counts in the per-property headings come from the built binary (`flute-sim list`)
+import re, subprocess
+try:
+    out=subprocess.run([f"{ROOT}/sim/target/release/flute-sim","list"],capture_output=True,text=True,env=dict(os.environ,VERIF_ROOT=ROOT)).stdout
+    for line in out.splitlines():
+        f=line.split()
+        if len(f)==3:
+            pid,q,th=f[0],int(f[1]),int(f[2])
+            fmt=lambda n: f"{n:,}".replace(","," ")
+            txt=re.sub(r"(### %s — [^\n]*?\(`props/c\d\d\.rs`, )[^)]*\)"%pid, lambda m: m.group(1)+f"{fmt(q)} / {fmt(th)} runs)", txt)
+except Exception as e:
+    print("run counts not refreshed:", e)
 txt=txt.replace("@SEEDED_TABLE@","\n".join(rows)+"\n")
 open(f"{ROOT}/DESIGN.md","w").write(txt)
 print("DESIGN.md", len(txt.splitlines()), "lines;", len(rows)-2, "seeded rows")
